@@ -1,18 +1,13 @@
 CONSTANTS
   Threads = {1, 2}
-  NL = 2
-  LSig <- LSig_aa
-  LHome <- LHome_12
+  Layouts <- LayoutsQuick
+  Muts <- MutsNone
   Sigs = {"a", "b"}
   BadSigs = {"k"}
-  MaxRaise = 2
+  MaxRaise = 1
+  RaiseOn = {0, 1}
   SpuriousPolls = FALSE
   FixLeak = FALSE
-  MutNoFilter = FALSE
-  MutFirstOnly = FALSE
-  MutNoRecheck = FALSE
-  MutDflAlways = FALSE
-  MutNoBarrier = FALSE
-  MutNoDfl = FALSE
+  MaxNL = 3
 SPECIFICATION Spec
 INVARIANTS Safe CurrentAlive NoCross Delivered NoSpurious WakeBound RegisteredImpliesHandler DispConsistent SlabExactModuloKnown KeysRight LockBalanced MutexOwned HandlerWaitFree AliveBound
